@@ -50,8 +50,17 @@ MK = {"sync": lambda: jinja2.Environment(extensions=EXT),
       "named": lambda: jinja2.Environment(extensions=EXT),
       "defer_init": lambda: jinja2.Environment(extensions=EXT),
       "newstyle": lambda: jinja2.Environment(extensions=EXT)}
+# user filters / tests (every environment has them): plain functions returning Python containers; applied to
+# constants they are folded at compile time and their value is written into the generated source
+USER_FILTERS = {"words": lambda s: str(s).split(), "wordset": lambda s: set(str(s).split()),
+                "frozen": lambda s: frozenset(str(s).split()), "index_of": lambda s: {w: i for i, w in enumerate(str(s).split())},
+                "groups": lambda s: {w[0]: {x for x in str(s).split() if x[0] == w[0]} for w in str(s).split()},
+                "pairs": lambda s: [(w, {w, w.upper()}) for w in str(s).split()], "twice": lambda s: (s, s)}
+USER_TESTS = {"in_words": lambda s, t: s in set(str(t).split())}
 def mk(mode):
     env = MK[mode]()
+    env.filters.update(USER_FILTERS)
+    env.tests.update(USER_TESTS)
     if mode == "newstyle":
         env.install_null_translations(newstyle=True)
     return env
@@ -130,7 +139,16 @@ class TextGen:
 
     def piece(self, depth=2):
         r = self.r
-        k = r.randrange(16)
+        k = r.randrange(17)
+        if k == 16:
+            # user filters on constants (folded by the optimizer) and on variables
+            words = " ".join(r.sample(IDS[:14], r.randint(2, 6)))
+            f = r.choice(["words", "wordset", "frozen", "index_of", "groups", "pairs", "twice"])
+            arg = "'" + words + "'" if r.random() < 0.7 else r.choice(IDS)
+            tail = r.choice(["", "|list", "|length", "|string", "|first"])
+            t = "{% if " + r.choice(IDS) + " is in_words('" + words + "') %}y{% endif %}" if r.random() < 0.3 else ""
+            obj = "{{ '" + words + "'." + r.choice(["split", "upper", "__class__", "join"]) + " }}" if r.random() < 0.2 else ""
+            return "{{ " + arg + "|" + f + tail + " }}" + t + obj
         if k == 13:
             # trans block with several free variables (the i18n extension builds the gettext call)
             xs = self.ids(r.randint(2, 5))
